@@ -35,11 +35,12 @@ class Tok:
         return self.t.setdefault(k, len(self.t) + 1)
 
 
-def make_storage(url, cb, timeout0=False):
+def make_storage(url, cb, timeout0=False, default_grace=False):
     from optuna.storages import RDBStorage
 
     kw = {"engine_kwargs": {"connect_args": {"timeout": 0}}} if timeout0 else {}
-    return RDBStorage(url, heartbeat_interval=60, grace_period=120, failed_trial_callback=cb,
+    # default_grace: no grace period given - the documented default is twice the heartbeat interval (= GRACE as well)
+    return RDBStorage(url, heartbeat_interval=60, grace_period=None if default_grace else 120, failed_trial_callback=cb,
                       skip_compatibility_check=True, skip_table_creation=True, **kw)
 
 
@@ -167,7 +168,7 @@ def execute(seed, mode, workdir):
             lg({"e": "callback_done", "w": w, "n": trial.number})
         return cb
     for w in range(1, nw + 1):
-        s = make_storage(url, mk_cb(w), timeout0=(mode == "conc"))
+        s = make_storage(url, mk_cb(w), timeout0=(mode == "conc"), default_grace=(mode == "clock" and seed % 2 == 1))
         instrument(s, w, lambda e: (sched.event if (sched and sched.current_worker()) else ev.append)(e), num_of)
         if mode == "conc":
             import sqlalchemy
